@@ -1016,11 +1016,21 @@ func r47ColumnConstraints(c *core.Ctx) {
 		return
 	}
 	info := f.Pkg.TypesInfo
-	var loop *ast.RangeStmt
+	var loop *colLoop
 	ast.Inspect(f.Decl.Body, func(n ast.Node) bool {
-		if r, ok := n.(*ast.RangeStmt); ok && loop == nil {
+		if loop != nil {
+			return false
+		}
+		switch r := n.(type) {
+		case *ast.RangeStmt:
 			if fv := core.FieldOf(info, r.X); fv != nil && fv.Name() == "columns" {
-				loop = r
+				loop = &colLoop{r, r.Body}
+			}
+		case *ast.ForStmt:
+			if x := countedLoopOver(info, r); x != nil {
+				if fv := core.FieldOf(info, x); fv != nil && fv.Name() == "columns" {
+					loop = &colLoop{r, r.Body}
+				}
 			}
 		}
 		return loop == nil
@@ -1064,7 +1074,7 @@ func r47ColumnConstraints(c *core.Ctx) {
 			bad += fmt.Sprintf("%q is never added; ", kw)
 		}
 	}
-	c.Check(R, construct, loop.Pos(), bad == "", "NOT NULL iff notnull == 1 and PRIMARY KEY iff pk == 1, each on its own", "createSQL does not copy the column constraints of the source table: "+bad)
+	c.Check(R, construct, loop.node.Pos(), bad == "", "NOT NULL iff notnull == 1 and PRIMARY KEY iff pk == 1, each on its own", "createSQL does not copy the column constraints of the source table: "+bad)
 }
 
 // freshPointerCall: the call returns a pointer to memory nobody else holds (a constructor of the standard library
